@@ -100,7 +100,9 @@ func (s *Store) Append(ctx context.Context, event *eventbus.Event) (eventbus.Off
 		Data: event.Data,
 	}
 	if !event.Timestamp.IsZero() {
-		writeEvent.Timestamp = event.Timestamp.Format(time.RFC3339Nano)
+		// RFC 3339 has no seconds in a zone offset: written in its own zone, a
+		// timestamp whose offset has seconds would come back as another instant.
+		writeEvent.Timestamp = event.Timestamp.UTC().Format(time.RFC3339Nano)
 	}
 
 	if err := writer.SendJSON(writeEvent, nil); err != nil {
